@@ -143,6 +143,9 @@ pub trait IterHandle {
     fn rest_rev(&self) -> Vec<Item>;
     /// (clone.nth(j), clone.nth_back(j)) on two fresh clones: a spot check of the remaining window
     fn probe(&self, j: usize) -> (Item, Item);
+    /// where the reference model expects the next answers to come from (front / back): tried first when an item is
+    /// identified, a pure speed-up for enums with tens of thousands of variants (identity is still decided by `==`)
+    fn hint(&self, _front: usize, _back: usize) {}
     /// what comes after the last remaining item, from both ends, on fresh clones:
     /// (nth(len), nth_back(len), next() after nth(len-1), next_back() after nth_back(len-1)) - all must be None
     fn probe_past_end(&self, len: usize) -> [Item; 4];
@@ -155,6 +158,7 @@ pub struct H<E: IntoEnumIterator + 'static> {
     /// index of the item identified last: items mostly come out next to each other, so the
     /// neighbours are tried before the linear search (matters for enums with thousands of variants)
     near: std::cell::Cell<usize>,
+    hints: std::cell::Cell<(usize, usize)>,
 }
 
 impl<E: IntoEnumIterator + PartialEq + Debug + 'static> H<E> {
@@ -164,7 +168,8 @@ impl<E: IntoEnumIterator + PartialEq + Debug + 'static> H<E> {
             Some(v) => {
                 let n = self.exp.len();
                 let c = self.near.get();
-                for cand in [c.wrapping_add(1), c.wrapping_sub(1), c] {
+                let (h1, h2) = self.hints.get();
+                for cand in [c.wrapping_add(1), c.wrapping_sub(1), c, h1, h2, h1.wrapping_add(1), h2.wrapping_sub(1)] {
                     if cand < n && self.exp[cand] == v {
                         self.near.set(cand);
                         return Item::Some(cand);
@@ -216,7 +221,7 @@ where
         self.it.size_hint()
     }
     fn dup(&self) -> Box<dyn IterHandle> {
-        Box::new(H::<E> { it: self.it.clone(), exp: self.exp.clone(), near: std::cell::Cell::new(self.near.get()) })
+        Box::new(H::<E> { it: self.it.clone(), exp: self.exp.clone(), near: std::cell::Cell::new(self.near.get()), hints: std::cell::Cell::new(self.hints.get()) })
     }
     fn clone_from_dyn(&mut self, other: &dyn IterHandle) {
         if let Some(o) = other.as_any().downcast_ref::<H<E>>() {
@@ -403,6 +408,9 @@ where
         }
         out
     }
+    fn hint(&self, front: usize, back: usize) {
+        self.hints.set((front, back));
+    }
     fn probe(&self, j: usize) -> (Item, Item) {
         let a = self.it.clone().nth(j);
         let b = self.it.clone().nth_back(j);
@@ -433,7 +441,7 @@ where
     E: IntoEnumIterator + PartialEq + Debug + 'static,
     E::Iterator: Debug,
 {
-    Box::new(H::<E> { it: E::iter(), exp: Rc::new(expected), near: std::cell::Cell::new(0) })
+    Box::new(H::<E> { it: E::iter(), exp: Rc::new(expected), near: std::cell::Cell::new(0), hints: std::cell::Cell::new((0, 0)) })
 }
 
 pub struct Case {
@@ -811,6 +819,7 @@ impl<'a> Exec<'a> {
                 return Err(fail("state_forward", "None after the last remaining item, from both ends".into(), show_items(&past)));
             }
             for j in positions {
+                s.real.hint(m.lo + j, m.hi - 1 - j);
                 let (a, b) = catch(|| s.real.probe(j)).map_err(|p| fail("panic_state", "no panic".into(), format!("panic while probing a clone: {}", p)))?;
                 let (wa, wb) = (Item::Some(m.lo + j), Item::Some(m.hi - 1 - j));
                 if a != wa {
@@ -848,6 +857,10 @@ impl<'a> Exec<'a> {
             let front = lo_b;
             let back = n - hi_b;
             let kidx = op.idx();
+            {
+                let k = if op.has_k() { op.k } else { 0 };
+                slots[hi].real.hint(lo_b.saturating_add(k), hi_b.wrapping_sub(1).wrapping_sub(k));
+            }
             self.trace.u(kidx as u64);
             self.trace.u(hi as u64);
             if op.has_k() {
